@@ -209,6 +209,31 @@ def c12(run, vc):
                       assumptions=["symbolic model with degree-2 coefficients f(i)*r", "reference interpolation + open on bls12_381_plus"])
 
 
+# ------------------------------------------------------------------------------------ C13
+def c13(run, vc):
+    tier = run.tier
+    tables = _prep(run, vc)
+    cfg = "MC_TimeLock_%s.cfg" % tier
+    r, bad = _tlc_stage(run, vc, "MC_TimeLock", cfg, [("TLSeal", "Ok"), ("TLSeal", "Err"), "TLDecrypt"], timeout=7200)
+    if bad:
+        return run.finish()
+    vecs = r["vectors"]
+    outs = {}
+    for v in vecs:
+        if v["act"] == "TLDecrypt":
+            key = (v["expect"]["out"], v["sig"]["route"], v["ct"]["scheme0"])
+            outs[key] = outs.get(key, 0) + 1
+    for need in [("Some", "whole", "Basic"), ("Some", "whole", "Aug"), ("Some", "whole", "Pop"), ("Some", "shares", "Basic"), ("Some", "shares", "Pop"), ("None", "shares", "Basic")]:
+        if need not in outs:
+            raise vc.ToolError("vacuity: no TLDecrypt vector %s" % (need,))
+    _sample(run, [v for v in vecs if v["act"] == "TLDecrypt"])
+    s = vc.replay(vecs, "c13", tables, profiles="5")
+    run.add_replay(s, "time-lock seal / decrypt for every identifier, scheme, key, length class, adversary move and offered signature (whole-key, recombined, wrong id/key/scheme/label, identity, negated)", vecs,
+                   lambda v: v["act"] == "TLDecrypt" and (v.get("touched") or not v.get("rightsig")))
+    return run.finish(rule="vectors = every TLSeal and TLDecrypt transition of the TimeLock model: keys x schemes x identifiers x length classes x <=Depth adversary moves on (U, V, W regions, scheme label) x offered signatures; derived executions = every bit of V / of the touched W region, every truncation length, and the independent implementation's exact result; non-trivial = touched ciphertext or not the right signature",
+                      assumptions=["symbolic model; r = Hr(alpha, SHA256(M)) is an atom determined by (alpha, M)", "independent open on bls12_381_plus + SHA-256 + SHAKE128 + hand-written HKDF"])
+
+
 # ------------------------------------------------------------------------------------ traces
 def _trace_signet(run, vc, tables, name, events, mix="all"):
     """implementation -> spec: record a random walk of the real library, validate with TLC."""
@@ -217,4 +242,4 @@ def _trace_signet(run, vc, tables, name, events, mix="all"):
     vc.record_and_validate(run, "signet", "Trace_SigNet", name, events, tables, mix=mix)
 
 
-CHECKS = {"C01": c01, "C02": c02, "C06": c06, "C07": c07, "C08": c08, "C09": c09, "C11": c11, "C12": c12}
+CHECKS = {"C01": c01, "C02": c02, "C06": c06, "C07": c07, "C08": c08, "C09": c09, "C11": c11, "C12": c12, "C13": c13}
